@@ -330,7 +330,14 @@ func (f *FuncCtx) countCall(text string, args []Val, e *ast.CallExpr, env *Env) 
 	}
 	// callreq obligations of the enclosing (top-level) contract
 	if f.C != nil {
-		if reqs, ok := f.C.CallReq[text]; ok {
+		reqs, ok := f.C.CallReq[text]
+		hasSite := false
+		for k := range f.C.CallReq {
+			if strings.HasPrefix(k, text+"#") {
+				hasSite = true
+			}
+		}
+		if ok || hasSite {
 			f.callOrd[text]++
 			bound := map[string]Val{}
 			for i, a := range args {
@@ -340,6 +347,12 @@ func (f *FuncCtx) countCall(text string, args []Val, e *ast.CallExpr, env *Env) 
 				sc := &specCtx{bound: []map[string]Val{bound}, old: f.entry, pos: sitePos, scope: fr.scope, pcs: f.PC, innerPos: e.Pos()}
 				g := f.evalClause(cl, env, sc)
 				f.oblige(fmt.Sprintf("callreq.%s#%d.%d", text, f.callOrd[text], k+1), "callreq", env, g, cl.Text, fmt.Sprintf("%s:%d", shortPath(cl.File), cl.Line))
+			}
+			// `callreq callee#n: e` applies to the n-th call site of that callee only (sites in source order)
+			for k, cl := range f.C.CallReq[fmt.Sprintf("%s#%d", text, f.callOrd[text])] {
+				sc := &specCtx{bound: []map[string]Val{bound}, old: f.entry, pos: sitePos, scope: fr.scope, pcs: f.PC, innerPos: e.Pos()}
+				g := f.evalClause(cl, env, sc)
+				f.oblige(fmt.Sprintf("callreq.%s#%d.s%d", text, f.callOrd[text], k+1), "callreq", env, g, cl.Text, fmt.Sprintf("%s:%d", shortPath(cl.File), cl.Line))
 			}
 		}
 	}
